@@ -1224,8 +1224,10 @@ func (t *Tree) Compile(file string, args []string, out io.Writer) (err error) {
 			printBegin()
 			printSave(out)
 			element := n.Front()
-			element.SetParentDetect(n.ParentDetect())
-			element.SetParentMultipleKey(n.ParentMultipleKey())
+			// The loop body runs again after the first iteration, where the
+			// character the switch dispatched on is long gone.
+			element.SetParentDetect(false)
+			element.SetParentMultipleKey(false)
 			compile(element, out)
 			printJump(again)
 			printLabel(out)
